@@ -6,9 +6,15 @@ ids = sys.argv[1:] or sorted(os.listdir("/verif/seeded"))
 for sid in ids:
     d = f"/verif/seeded/{sid}"
     if not os.path.exists(d + "/patch.diff"): continue
-    p = subprocess.run(f"python3 /verif/tools/mutrun.py patch {d}/patch.diff", shell=True, stdout=subprocess.PIPE, stderr=subprocess.STDOUT, text=True)
+    meta0 = json.load(open(d + "/meta.json"))
+    props = os.environ.get("SEED_PROPS", "").replace("OWN", meta0.get("property", ""))
+    p = subprocess.run(f"python3 /verif/tools/mutrun.py patch {d}/patch.diff {props}", shell=True, stdout=subprocess.PIPE, stderr=subprocess.STDOUT, text=True)
     det = [l for l in p.stdout.splitlines() if l.startswith("== ")]
     meta = json.load(open(d + "/meta.json"))
+    if props.strip():   # partial recheck: record separately, keep the full matrix
+        meta["own_check"] = det[0] if det else p.stdout[-400:]
+        json.dump(meta, open(d + "/meta.json", "w"), indent=1)
+        print(sid, "own:", meta["own_check"]); continue
     meta["checks"] = det[0] if det else p.stdout[-400:]
     meta["violation_lines"] = [l.strip().replace(os.environ.get("MUTROOT", "/work/mutrun"), "<copy>") for l in p.stdout.splitlines() if "VIOLATION" in l][:6]
     json.dump(meta, open(d + "/meta.json", "w"), indent=1)
